@@ -50,6 +50,11 @@ Theorem C08_targets_change_only_at_updates : forall es s,
 Proof. exact targets_change_only_at_updates. Qed.
 Print Assumptions C08_targets_change_only_at_updates.
 
+(* on a length mismatch (Python raises) the event model writes nothing: both lists stay as they are *)
+Theorem C08_pair_update_mismatch_keeps : forall s tau, length (fst s) <> length (snd s) -> pair_step s (Update tau) = s.
+Proof. exact pair_update_mismatch. Qed.
+Print Assumptions C08_pair_update_mismatch_keeps.
+
 Theorem C08_update_online_untouched : forall s tau i p t,
   fst (pair_step s (Update tau)) = fst s /\
   (length (fst s) = length (snd s) -> nth_error (fst s) i = Some p -> nth_error (snd s) i = Some t ->
@@ -237,3 +242,6 @@ Proof. repeat split; reflexivity. Qed.
 (* "every k gradient steps" over the whole run, as the refutation of F9 reads it: steps 0, k, 2k, ... *)
 Example C08_ex_every_k_global : every_k_global 4 6 = [true; false; false; false; true; false] /\ every_k_global 1 3 = [true; true; true].
 Proof. split; reflexivity. Qed.
+
+Example C08_ex_pair_mismatch : pair_step ([1; 2]%Q, [5]%Q) (Update (1 # 2)) = ([1; 2]%Q, [5]%Q).
+Proof. reflexivity. Qed.
